@@ -127,6 +127,17 @@ def theorems_in(path):
     return names
 
 
+LEAN_PHASE_LOCK = [None]
+
+
+def _release_lean_phase():
+    if LEAN_PHASE_LOCK[0] is not None:
+        try:
+            LEAN_PHASE_LOCK[0].close()
+        finally:
+            LEAN_PHASE_LOCK[0] = None
+
+
 class Lean:
     """lake build, axiom audit, driver I/O."""
 
@@ -136,12 +147,16 @@ class Lean:
         self.driver_path = os.path.join(LEAN, '.lake', 'build', 'bin', self.exe)
 
     def _lake(self, args, timeout=3000):
-        lock = stage._lock()
+        # the whole Lean phase (translate -> build -> audit -> leanchecker) runs under one lock held by main():
+        # Model/Generated is shared, and concurrent checks (possibly against different trees via VERIF_REPO)
+        # must not see each other's generated files half-way through a build
+        lock = None if LEAN_PHASE_LOCK[0] is not None else stage._lock()
         try:
             r = subprocess.run(['lake'] + args, cwd=LEAN, capture_output=True, text=True,
                                timeout=timeout)
         finally:
-            lock.close()
+            if lock is not None:
+                lock.close()
         return r
 
     def build_driver(self):
@@ -358,7 +373,8 @@ def main(argv=None):
     try:
         mod = importlib.import_module('props.' + prop_id.lower())
         lean = Lean(log, prop_id)
-        # 1. translator
+        # 1. translator (from here to the end of step 3 under the Lean-phase lock)
+        LEAN_PHASE_LOCK[0] = stage._lock()
         gen_info = None
         if hasattr(mod, 'translate'):
             # source -> lean/Model/Generated/*.lean, regenerated on every run
@@ -402,6 +418,7 @@ def main(argv=None):
             checker_cmd += ' && lake env leanchecker ' + ' '.join(modules)
             log('leanchecker accepted %s' % modules)
         # 4. stage
+        _release_lean_phase()
         stage_dir, sinfo = stage.stage()
         stage.activate(stage_dir)
         log('staged /repo working tree -> %s (ext cache: %s)' % (stage_dir, sinfo))
@@ -543,6 +560,7 @@ def main(argv=None):
         return 2
     finally:
         signal.alarm(0)
+        _release_lean_phase()
         if stage_dir:
             stage.unstage(stage_dir)
 
